@@ -560,6 +560,39 @@ def run_literals(chk, workdir):
                 chk.bump('literal pasted')
 
 
+def run_enum_negative(chk, workdir):
+    """isar enumerators written as negative literals: -2^31 .. -1 are kept as two's complement in 32 bits (pinned by the repository's
+    tests), anything below cannot be held by an enumerator: it is refused, not wrapped into another integer"""
+    import prophyc
+    import prophyc.model as M
+    texts = ['-1', '-10', '-0x10', '- 3', '-2147483648', '-0x80000000', '-2147483649', '-0x80000001', '-3000000000', '-4294967294', '-4294967295',
+             '-0xFFFFFFFF', '-4294967296', '-4294967297', '-9223372036854775808', '4294967295', '4294967296']
+    for i, text in enumerate(texts):
+        base = 'en%d' % i
+        src = os.path.join(workdir, base + '.xml')
+        with open(src, 'w') as f:
+            f.write('<dom><enum name="EN"><enum-member name="EN_A" value="%s"/><enum-member name="EN_B" value="2"/></enum>'
+                    '<struct name="SN"><member name="e" type="EN"/></struct></dom>' % text)
+        value = int(text.replace(' ', ''), 0)
+        icase = {'syntax': 'isar-enumerator-literal', 'expression': text, 'integer': value}
+        chk.count(('enum-literal', text), True)
+        chk.bump('kind:enum-literal')
+        try:
+            res, _ = py_impl.run_prophyc(['--isar', '--python_out', workdir, src])
+        except prophyc.ProphycError:
+            chk.bump('enum-literal refused')      # (a refusal is always allowed: `- 3` with a blank is refused, `-3` is not)
+            continue
+        got = M._collect_constants(res[base]).get('EN_A')
+        try:
+            module = dict(py_impl.import_file(os.path.join(workdir, base + '.py')).EN._enumerators)['EN_A']
+        except Exception as ex:  # noqa
+            module = '%s: %s' % (type(ex).__name__, str(ex)[:80])
+        want = value + 2 ** 32 if -2 ** 31 <= value < 0 else value
+        if not (-2 ** 31 <= value < 2 ** 32) or got != want or module != want:
+            chk.property_violation(icase, {'what': 'an enumerator literal denotes %s for prophyc and %s in the Python module; integer arithmetic gives %d%s'
+                                                   % (got, module, value, '' if -2 ** 31 <= value < 2 ** 32 else ', which no enumerator can hold')})
+
+
 def run_enum_own_reference(chk, workdir):
     """isar enumerators that refer to earlier enumerators of their own enum: one integer in the layout, the Python module and both
     C++ headers (an expression with a negative intermediate result is known finding D190)"""
@@ -685,6 +718,7 @@ def run_c14(tier):
         run_isar_host_text(chk, workdir)
         run_enum_own_reference(chk, workdir)
         run_literals(chk, workdir)
+        run_enum_negative(chk, workdir)
         run_const_edges(chk, workdir)
     finally:
         shutil.rmtree(workdir, ignore_errors=True)
